@@ -74,6 +74,9 @@ var rdfLangs = []string{"@en", "@en-GB", "@x-1a", "@EN", "@de-CH-1996"}
 
 var rdfDatatypes = []string{"^^<http://www.w3.org/2001/XMLSchema#string>", "^^<ex:dt>", "^^<http://example.org/" + rdfU + "00e9>"}
 
+var rdfHostileLabels = []string{"", "a b", "a.", ".a", "-a", "a..b", "a.b", "a:b", "é", "a\u00b7", "\u00b7a", "1a", "_", "a-", "a\n", "a>", "_:a", "a\u203f", "a\x00", "a.b."}
+var rdfHostileLangs = []string{"@", "@en-", "@-en", "@en--us", "@e1", "@en-1a", "@EN", "@en us", "@en-us-", "@en\n", "@@en", "@en-Latn-US", "@1", "@en_US", "@é"}
+
 func rdfPick(t *simrt.Tape, list []string) string { return list[t.Choose(simrt.KValue, len(list))] }
 
 func rdfDrawLiteral(t *simrt.Tape) string {
@@ -288,6 +291,59 @@ func runNQuads(c *Ctx) *Violation {
 			return v
 		}
 		_ = i
+	}
+	// constructors on labels and language tags that may be malformed: an error,
+	// or a term that survives printing and parsing ("decoders are total" for the
+	// two validators written as grammars, checkLabelText and checkLangText)
+	for i := 0; i < 2; i++ {
+		label := rdfPick(t, rdfHostileLabels)
+		lang := rdfPick(t, rdfHostileLangs)
+		if v := c.Guard("Term/constructors-hostile", func() string { return fmt.Sprintf("blank label %q, language tag %q", label, lang) }, func() *Violation {
+			c.Case("control", false, hashString(label), hashString(lang))
+			c.Oracle("constructors-error-or-roundtrip")
+			subj, _ := rdf.NewBlankTerm("s")
+			pred, _ := rdf.NewIRITerm("ex:p")
+			for _, x := range []struct {
+				what string
+				term rdf.Term
+				err  error
+			}{
+				func() (r struct {
+					what string
+					term rdf.Term
+					err  error
+				}) {
+					r.what = fmt.Sprintf("NewBlankTerm(%q)", label)
+					r.term, r.err = rdf.NewBlankTerm(label)
+					return
+				}(),
+				func() (r struct {
+					what string
+					term rdf.Term
+					err  error
+				}) {
+					r.what = fmt.Sprintf("NewLiteralTerm(\"v\", %q)", lang)
+					r.term, r.err = rdf.NewLiteralTerm("v", lang)
+					return
+				}(),
+			} {
+				if x.err != nil {
+					c.Probe("constructor_rejected_malformed", 1)
+					continue
+				}
+				st := &rdf.Statement{Subject: subj, Predicate: pred, Object: x.term}
+				p, err := rdf.ParseNQuad(st.String())
+				if err != nil {
+					return viol("nquads/Term/constructor-accepts-unparsable", "%s succeeds with %q, but the statement %q does not parse: %v", x.what, x.term.Value, st.String(), err)
+				}
+				if !rdfSame(p, st) {
+					return viol("nquads/Term/constructor-accepts-unparsable", "%s succeeds with %q, but the statement %q parses as %v", x.what, x.term.Value, st.String(), rdfShow(p))
+				}
+			}
+			return nil
+		}); v != nil {
+			return v
+		}
 	}
 	// terms built with the constructors: Parts returns what went in, and the statement parses
 	for i := 0; i < 3; i++ {
